@@ -6,6 +6,14 @@ ALL = ["C%02d" % i for i in range(1, 20)]
 
 # id -> (technique, level text, level note, design ref)
 CLAIMED = {
+ "C17": ("exhaustive enumeration of the ~355 shipped rules x --full configurations with the real binary (metamorphic: full vs normal build), plus rapid-generated profiles through the registered builder chain vs. an independent line tokenizer",
+         "Every source rule written rPUx / rUx without a target is located by an independent tokenizer and looked up (same file, path token, ordinal) in real --full builds - all 45 configurations in thorough, a covering sample of 6 in quick - where its access token must be 'rpx'; the normal build of the same configuration may differ from the source in letter case only. Generated profiles (all spacing / qualifier / comment shapes and look-alikes) go through the in-process builder chain of a full build with complain/enforce/abi3 variants.",
+         "Trusts the line tokenizer in c17_test.go and the pairing of source and built rules by case-folded path token and ordinal; rules absent from a build (ignored file, only/exclude filter) are counted, not judged.",
+         "DESIGN.md §2 C17"),
+ "C19": ("exhaustive enumeration of the shipped profile and abstraction files with an independent layout scanner; the scanner itself is validated by rapid-generated contract-breaking edits (metamorphic)",
+         "All ~1550 profile files and the linted abstraction directories are scanned completely on every run (abi 4.0, profile named after the file, attachment = own @{exec_path}, local includes for profile and sub-profiles, abstraction .d include, unique base names). Because an enumeration is only as good as its predicate, rapid mutates conforming shipped files (8 kinds of contract-breaking edit) and requires the scanner to flag each.",
+         "Trusts the scanner in c19_test.go, written from tests/check.sh and the statement.",
+         "DESIGN.md §2 C19"),
  "C14": ("rapid property-based testing: generated log files vs. a reference model of the documented selection, in-process and through the real aa-log binary (metamorphic: two runs, same bytes)",
          "Generated search over log files (1-40 lines: records of all three states in kernel and dbus style with unique tokens, repeats differing in timestamp/pid, STATUS records, foreign lines, noise-path records, blank/garbled/binary lines and lines > 64 KiB, in audit, syslog and journald-JSON framing, with and without a profile filter incl. filters with '.'): the token sequence reported by the library reader, and by the real binary in list and raw mode, must equal the model's (nothing lost, nothing invented, input order, once); the listing rendered five times and every binary mode run twice must give identical bytes; exit status 0.",
          "Trusts the selection model in c14_test.go; noise exemplars are the documented base-abstraction paths (no borderline spellings); unrelated journal entries are valid JSON (journalctl --output=json always writes valid JSON); output determinism is probabilistic per case (map order), bounded by repetition.",
